@@ -193,6 +193,15 @@ impl BetTable {
         let data_start = 12 + std::mem::size_of::<BetHeader>();
         let mut cursor = std::io::Cursor::new(&table_data[data_start..]);
 
+        // Entries of a table that holds files are at least one bit wide. With 0-bit entries
+        // the size check below would hold for any file_count, and every enumeration of the
+        // archive walks file_count entries
+        if header.file_count > 0 && header.table_entry_size == 0 {
+            return Err(Error::invalid_format(format!(
+                "BET table announces {file_count} files but its entries are 0 bits wide"
+            )));
+        }
+
         // The counts come from the table itself: everything they announce must be
         // present in the table data before anything is sized from them
         let file_table_bits = header.file_count as u64 * header.table_entry_size as u64;
